@@ -118,7 +118,7 @@ fn candidates(i: &Inner, only_objs: Option<&[u8]>, dormant_pool_threads: usize, 
         } else if let Some(g) = o.waiting_gate {
             // resuming needs the context that ran it (a parked sync caller, a polling task) or a pool thread
             // (quiet aftermath of a panic: only a wake-up that certainly came after the lost thread was gone is one the library must act on)
-            if i.gates[g].open && (!quiet_after_panic || i.gates[g].opened_in_final) && (pool_capacity || !pool_task(if o.last_poll_task != usize::MAX { o.last_poll_task } else { o.runner_task })) {
+            if i.gates[g].open && (!quiet_after_panic || (i.gates[g].opened_in_final && i.panic_clock < i.final_stage_clock)) && (pool_capacity || !pool_task(if o.last_poll_task != usize::MAX { o.last_poll_task } else { o.runner_task })) {
                 out.push(Cand { op: Some(id), obj: o.obj, prop: "C06", clause: "wake-lost", inv: o.inv, ret: o.ret, detail: format!("{:?} #{} on o{} is suspended on gate g{} which was opened at t={} but was never resumed", o.kind, id, o.obj, g, i.gates[g].opened_at) });
             }
         }
@@ -322,6 +322,12 @@ pub fn final_quiescence(w: &Arc<World>, handles: &[Option<ObjH>]) {
             w.note("C16", "pipe-not-shut-down", None, None, format!("the output stream of pipe s{} was dropped and the input stayed silent, but the input stream was dropped {} times and the processing closure {} times", si, drops, fn_drops));
         }
     }
+    for (o, h) in handles.iter().enumerate() {
+        if let Some(h) = h {
+            w.hist(|| format!("at final quiescence o{}: {}", o, h.debug()));
+        }
+    }
+    w.hist(|| format!("at final quiescence: scheduler {:?}, live pool threads {}", desync::scheduler::scheduler(), rt::live_named(POOL_THREAD_NAME)));
     let waiting = attribute(w, None, "final quiescence: all gates open, all callers should be done", &rt::snapshot());
     // a call that was already in flight on an object when one of its operations panicked may wait forever: no property covers it
     let (unfinished_callers, nviol) = w.with(|i| {
